@@ -24,6 +24,16 @@ def gen(rng, facts):
         return ('log', t, None, rng.randrange(nl), 4, HDR_LOG + rng.choice(pads), 0, stall)
     def fresh(cmd):
         l = list(cmd); l[2] = c.next_id; c.next_id += 1; return tuple(l)
+    if c.dropping == 2 and rng.random() < 0.25:
+        # shrink the queue, then a statement that does not fit the shrunken node (it lands in a node further down the
+        # chain), then a later statement of another thread
+        a = rng.randrange(nt); b = (a + 1) % nt
+        if rng.random() < 0.5: c.cmds.append(fresh(a_log(a))); c.poll(); c.poll()
+        c.shrink(a, rng.choice([64, 128, 128, 256]))
+        big = c.next_id; c.next_id += 1
+        c.cmds.append(('log', a, big, 0, 4, HDR_LOG + rng.choice([100, 230, 500]), 0, False))
+        c.tick(1); c.cmds.append(fresh(a_log(b))); c.tick(rng.choice([2 * g, g + 1]))
+        for _ in range(rng.randint(1, 3)): c.poll()
     if c.dropping == 2 and rng.random() < 0.6:
         # unbounded queue growing to a new node: 64-byte records fill a node exactly; the hard limit stops the read
         # on or around the node boundary while another thread holds a later timestamp
@@ -77,7 +87,12 @@ def corpus_cases(facts):
     c.log(0); c.tick(5000); c.poll(); c.poll()
     c.poll([(1, 0, [('log', 1, 2, 0, 4, HDR_LOG, 0, False), ('tick', 1), ('log', 0, 3, 0, 4, HDR_LOG, 0, False), ('tick', 2000)])]); c.next_id = 4
     for _ in range(4): c.poll()
-    return [c]
+    # D17 replay: shrink to 128 bytes, then a 145-byte statement (it lands in a third node, the 128-byte node stays
+    # unused), then another thread's later statement: the pass must not skip the first thread's statement
+    d = Case(dropping=2, capk=8, tinit=4, soft=4, hard=8, grace=1000, facts=facts)
+    d.shrink(0, 128); d.log(0, pad=100); d.tick(1); d.log(1); d.tick(5000)
+    for _ in range(4): d.poll()
+    return [c, d]
 
 
 def monitor(case, obs):
